@@ -141,7 +141,12 @@ func flavourID(c Check, o Opts) string {
 }
 
 // Main is the entry point of a driver binary.
-func Main(checks map[string]Check) {
+func Main(checks map[string]Check) { MainArgs(os.Args[1:], checks) }
+
+// MainArgs is Main with explicit arguments (test-binary drivers receive them
+// through the environment).
+func MainArgs(args []string, checks map[string]Check) {
+	flag := flag.NewFlagSet("driver", flag.ExitOnError)
 	var (
 		id      = flag.String("check", "", "check id")
 		seed    = flag.Uint64("seed", 1, "VERIF_SEED")
@@ -160,7 +165,7 @@ func Main(checks map[string]Check) {
 		one     = flag.Int("one", -1, "execute just this run index verbosely")
 		fplog   = flag.String("fplog", "", "write per-run fingerprints to this file")
 	)
-	flag.Parse()
+	flag.Parse(args)
 	if *replay != "" {
 		os.Exit(DoReplay(checks, *replay, true))
 	}
